@@ -27,3 +27,15 @@ CHECKS['C10'] = dict(level='proof',
         '(data-dependent loops). Multiplicativity/transpose-invariance of det follow mathematically from det == Leibniz.',
    technique='abstract interpretation of instantiated LLVM IR into rational normal forms; exact polynomial division for inv(p)*p=1')
 NOT_APPLICABLE.pop('C10', None)
+
+CHECKS['C01'] = dict(level='other',
+   text='For every component-wise function and operator (core common/exponential/trigonometric/integer/relational, the ext/gtc twins, arithmetic/bitwise/shift/compound/unary/++-- operators '
+        'in all vector/scalar/vec1 operand combinations, matrix abs/mix, vector ==/!=, any/all) and every length 1-4 x element type, each output lane of the vector call is compared with the '
+        'scalar overload instantiated from the same tree: lane discipline (dependence), identical term / identical integer polynomial mod 2^w / equivalent decision over all weak orderings x NaN '
+        'cases, ring-equal normal form for the composite formulas, and instantiability of every overload. Holds for all inputs because it is a statement about the instantiated code shape.',
+   note='Decided: sibling agreement vector vs scalar (a defect shared by both is out of scope: C11), existence of overloads, sign-of-zero/NaN differences via the float-class domain. '
+        'Not decided (reported UNDECIDED, never an alarm): numeric error bounds of composite formulas and lowp approximations (lowp inversesqrt excluded by the property), SWAR bit ladders whose '
+        'vector and scalar code shapes differ (bitCount/findMSB on some widths), ULP-equal (decided under C14), findNSB loop, gtx/extended_min_max templates (template-template parameter cannot bind glm::vec). '
+        'Level "other": mixed rule set (sibling differential + compile-fail witnesses).',
+   technique='sibling cross-check of instantiated LLVM IR: term identity, polynomial normal forms, finite ordering x NaN case analysis, float-class abstract interpretation')
+NOT_APPLICABLE.pop('C01', None)
